@@ -1,5 +1,8 @@
 """python tools/debug_case.py C15 out/file.json  -> prints the trace of a scenario-based case"""
 import sys, json, os
+if os.path.exists("/venv/bin/python") and os.path.realpath(sys.executable) != os.path.realpath("/venv/bin/python"):
+    # the checks run under /venv (any other interpreter would make boot install its own copy of the dependencies)
+    os.execv("/venv/bin/python", ["/venv/bin/python"] + sys.argv)
 sys.path.insert(0, os.path.dirname(os.path.dirname(os.path.abspath(__file__))))
 from harness import boot
 boot.init(reexec=False)
